@@ -66,3 +66,11 @@ Example C10_nonvacuous :
   | None => None
   end = Some (VFloat (FDec 9365 2)).
 Proof. vm_compute. reflexivity. Qed.
+
+(* The model's line handler has no exception channel of its own (Raise can only come out of the message callback, whose
+   decoding is what the theorems above are about).  That the code's handle_line contains no `raise` statement is read
+   off the AST of ynca/connection.py on every run (Gen/Params.v). *)
+From Ynca Require Import Gen.Params.
+Theorem C10_the_line_handler_raises_nothing_itself : p_handle_line_raises_nothing = true.
+Proof. reflexivity. Qed.
+Print Assumptions C10_the_line_handler_raises_nothing_itself.
